@@ -601,6 +601,105 @@ func (*Parser).parseJoin
 recfunc sq2((s Str) (n Int)) Int := (ite (<= n 0) 0 (let ((q (@sq2 s (- n 1))) (c (gs.at s (- n 1)))) (ite (not (= q 0)) (ite (= c q) 0 q) (ite (or (= c 39) (= c 34)) c 0))))
 recfunc sdepth((s Str) (n Int)) Int := (ite (<= n 0) 0 (let ((d (@sdepth s (- n 1))) (q (@sq2 s (- n 1))) (c (gs.at s (- n 1)))) (ite (not (= q 0)) d (ite (= c 40) (+ d 1) (ite (= c 41) (- d 1) d)))))
 
+// ---- small text helpers of the AST -> config conversion
+// pdp(s, a, n): parenthesis depth after the bytes s[a..n), starting from depth 1 (just inside an opening parenthesis)
+recfunc pdp((s Str) (a Int) (n Int)) Int := (ite (<= n a) 1 (+ (@pdp s a (- n 1)) (ite (= (gs.at s (- n 1)) 40) 1 (ite (= (gs.at s (- n 1)) 41) (- 1) 0))))
+
+func findMatchingParenInternal
+  props C11 C07 C14 C01 C04
+  option safety
+  requires start >= 0
+  ensures only-an-opening-parenthesis-has-a-partner: start >= len(s) || (start >= 0 && s[start] != 40) ==> result == -1
+  ensures the-partner-is-the-first-closing-parenthesis-that-brings-the-depth-back: result != -1 ==> start < result && result < len(s) && s[result] == 41 && pdp(s, start + 1, result) == 1 && forall(j, start + 1, result, !(s[j] == 41 && pdp(s, start + 1, j) == 1))
+  ensures minus-one-means-it-is-never-closed: result == -1 && 0 <= start && start < len(s) && s[start] == 40 ==> forall(j, start + 1, len(s), !(s[j] == 41 && pdp(s, start + 1, j) == 1))
+  loop 1 invariant start + 1 <= i && i <= len(s) && count == pdp(s, start + 1, i) && count >= 1
+  loop 1 invariant forall(j, start + 1, i, !(s[j] == 41 && pdp(s, start + 1, j) == 1))
+  loop 1 decreases len(s) - i
+
+pred identStart(c) := (c >= 97 && c <= 122) || (c >= 65 && c <= 90) || c == 95
+pred identPart(c) := identStart(c) || (c >= 48 && c <= 57)
+
+func isIdentifier
+  props C11 C07 C14 C01 C04
+  option safety
+  option pure
+  ensures a-letter-or-underscore-then-letters-digits-underscores: result <==> len(s) > 0 && identStart(s[0]) && forall(j, 1, len(s), identPart(s[j]))
+  loop 1 invariant 1 <= i && i <= len(s) && forall(j, 1, i, identPart(s[j]))
+  loop 1 decreases len(s) - i
+
+func isLiteralToken
+  props C11 C07 C14 C01 C04
+  option safety
+  option pure
+  ensures keywords-quoted-strings-and-number-like-tokens: result <==> s == "true" || s == "false" || s == "nil" || (len(s) >= 2 && (s[0] == 34 || s[0] == 39) && s[len(s) - 1] == s[0]) || (len(s) > 0 && ((s[0] >= 48 && s[0] <= 57) || s[0] == 45 || s[0] == 43 || s[0] == 46))
+
+func extractFunctionName
+  props C11 C07 C14 C01 C04
+  option safety
+  option pure
+  ensures no-parenthesis-no-function: strings.Index(expr, "(") == -1 ==> result == ""
+  ensures the-name-is-the-text-before-the-first-parenthesis-or-nothing: strings.Index(expr, "(") >= 0 ==> result == "" || result == strings.TrimSpace(expr[:strings.Index(expr, "(")])
+
+func splitCallArgs
+  props C11 C07 C14 C01 C04
+  option safety
+  before splitTopLevelCommas the-argument-text-is-what-lies-between-the-first-opening-and-the-last-closing-parenthesis: $arg0 == expr[strings.IndexByte(expr, 40) + 1 : strings.LastIndexByte(expr, 41)]
+  ensures no-parentheses-no-arguments: strings.IndexByte(expr, 40) < 0 || strings.LastIndexByte(expr, 41) <= strings.IndexByte(expr, 40) ==> len(result) == 0
+
+// window parameters: a counting window takes a positive integer count; a session window a positive timeout; tumbling and
+// sliding windows only positive durations, one per parameter written and in that order; a bare number counts seconds
+pred isIntParam(v) := hasType(v, int) || hasType(v, int8) || hasType(v, int16) || hasType(v, int32) || hasType(v, int64) || hasType(v, uint) || hasType(v, uint8) || hasType(v, uint16) || hasType(v, uint32) || hasType(v, uint64)
+
+func validateWindowParams$1
+  props C11 C01 C04 C07 C14
+  ensures a-duration-is-taken-as-it-is: hasType(val, time.Duration) ==> result1 == nil && result0 == intval(val)
+  ensures a-bare-integer-counts-seconds: isIntParam(val) ==> result1 == nil && result0 == cast.ToInt(val) * 1000000000
+  ensures a-text-is-parsed-as-a-duration: hasType(val, string) ==> result0 == cast.ToDurationE(val) && result1 == second(cast.ToDurationE(val))
+
+func validateWindowParams
+  props C11 C01 C04 C07 C14
+  option assumed_frame
+  ensures nothing-written-nothing-to-validate: len(params) == 0 ==> result1 == nil && len(result0) == 0
+  ensures a-counting-window-gets-its-positive-count-first-and-the-rest-as-written: windowType == "counting" && len(params) > 0 && result1 == nil ==> len(result0) == len(params) && result0[0] == boxof(cast.ToIntE(params[0]), int) && cast.ToIntE(params[0]) > 0 && forall(j, 1, len(params), result0[j] == params[j])
+  ensures a-session-window-gets-a-positive-timeout-first-and-the-rest-as-written: windowType == "session" && len(params) > 0 && result1 == nil ==> len(result0) == len(params) && hasType(result0[0], time.Duration) && intval(result0[0]) > 0 && forall(j, 1, len(params), result0[j] == params[j])
+  ensures time-windows-get-one-positive-duration-per-parameter: windowType != "counting" && windowType != "session" && result1 == nil ==> len(result0) == len(params) && forall(j, 0, len(params), hasType(result0[j], time.Duration) && intval(result0[j]) > 0)
+  loop 1 invariant len(validated) == $i && forall(j, 0, $i, hasType(validated[j], time.Duration) && intval(validated[j]) > 0)
+
+// what needs the aggregation path: a registered aggregate, analytic or window function; a registered scalar function and
+// an expr-lang builtin do not; an unknown call is conservatively treated as one
+func isAggregationFunction
+  props C11 C07 C14 C01 C04
+  option pure
+  option assumed_frame
+  observe fn := Get
+  observe known := Get#1
+  observe kind := GetType
+  observe builtin := IsExprLangFunction
+  before Get the-function-looked-up-is-the-one-named-in-the-expression: $arg0 == extractFunctionName(expr)
+  before IsExprLangFunction the-function-asked-about-is-the-one-named-in-the-expression: $arg1 == extractFunctionName(expr)
+  atreturn no-function-name-no-aggregate: extractFunctionName(expr) == "" ==> !result
+  atreturn a-registered-function-decides-by-its-type: extractFunctionName(expr) != "" && $known ==> (result <==> $kind == "aggregation" || $kind == "analytical" || $kind == "window")
+  atreturn an-expr-lang-builtin-is-no-aggregate: extractFunctionName(expr) != "" && !$known && $builtin ==> !result
+
+// the group keys handed on are the GROUP BY items in the order written, minus aggregate calls
+func extractGroupFields
+  props C04 C11 C07 C14 C01
+  ensures every-key-kept-is-a-group-by-item-that-is-no-aggregate: forall(j, 0, len(result), exists(k, 0, len(s.GroupBy), result[j] == s.GroupBy[k] && !isAggregationFunction(s.GroupBy[k])))
+  ensures no-plain-or-scalar-function-key-is-lost: forall(k, 0, len(s.GroupBy), !isAggregationFunction(s.GroupBy[k]) ==> exists(j, 0, len(result), result[j] == s.GroupBy[k]))
+  loop 1 invariant forall(j, 0, len(fields), exists(k, 0, $i, fields[j] == s.GroupBy[k] && !isAggregationFunction(s.GroupBy[k])))
+  loop 1 invariant forall(k, 0, $i, !isAggregationFunction(s.GroupBy[k]) ==> exists(j, 0, len(fields), fields[j] == s.GroupBy[k]))
+  loop 1 invariant $s == s.GroupBy
+
+// the alias map of the SELECT list: an aliased item maps its expression text to its alias, nothing else is in the map
+func buildSelectAliasMap
+  props C04 C11 C07 C14 C01
+  ensures aliased-items-map-to-their-alias-and-nothing-else-is-there: fresh(result) && forallv(k, "", dom(result, k) ==> exists(j, 0, len(fields), fields[j].Alias != "" && fields[j].Expression == k && result[k] != ""))
+  ensures every-aliased-item-is-in-the-map: forall(j, 0, len(fields), fields[j].Alias != "" ==> dom(result, fields[j].Expression))
+  ensures an-expression-written-once-maps-to-its-own-alias: forall(j, 0, len(fields), fields[j].Alias != "" && forall(k, 0, len(fields), k != j ==> fields[k].Expression != fields[j].Expression) ==> result[fields[j].Expression] == fields[j].Alias)
+  loop 1 invariant fresh(m) && forallv(k, "", dom(m, k) ==> exists(j, 0, $i, fields[j].Alias != "" && fields[j].Expression == k && m[k] != ""))
+  loop 1 invariant forall(j, 0, $i, fields[j].Alias != "" ==> dom(m, fields[j].Expression))
+  loop 1 invariant forall(j, 0, $i, fields[j].Alias != "" && forall(k, 0, $i, k != j ==> fields[k].Expression != fields[j].Expression) ==> m[fields[j].Expression] == fields[j].Alias)
+
 func splitTopLevelCommas
   props C11 C14 C01 C04 C07
   option safety
